@@ -10,7 +10,7 @@
    for every message a raft node sends ([send] stamps it); a forged MsgApp with term 0 would be
    treated as a local message and reset a candidate's term to 0 (see C07_needs_wf). *)
 From Coq Require Import List NArith.
-From RaftV Require Import Base Types Storage Log Raft RawNode RaftMono RaftRouting NodeProps.
+From RaftV Require Import Base Types Storage Log Raft RawNode RaftMono RaftRouting NodeProps TermProofs.
 Import ListNotations.
 
 (* (a) within an incarnation, over every input sequence *)
@@ -51,3 +51,46 @@ Theorem C07_step : forall st r m r' e,
   wf_msg m -> step st r m = Ok (r', e) -> hs_le (hard_state r) (hard_state r').
 Proof. exact step_mono. Qed.
 Print Assumptions C07_step.
+
+
+(* (d) a node never acts in a term below its hard state (Proofs/TermProofs.v).  [tok T m]: the
+   message carries a term of at least T, or it is a forwarded proposal / read request, the two
+   kinds that raft sends without a term.  [tex T r r']: from a state whose term is at least T the
+   term stays at least T and both outgoing queues only grow, by messages that satisfy [tok T]. *)
+Theorem C07_step_emits_no_lower_term : forall T st r m r' e,
+  wf_msg m -> step st r m = Ok (r', e) -> tex T r r'.
+Proof. exact step_tex. Qed.
+Print Assumptions C07_step_emits_no_lower_term.
+
+Theorem C07_tick_emits_no_lower_term : forall T st r r', tick st r = Ok r' -> tex T r r'.
+Proof. exact tick_tex. Qed.
+Print Assumptions C07_tick_emits_no_lower_term.
+
+(* through the RawNode API, for every input of an incarnation: the invariant "term at least T,
+   everything queued satisfies tok T" is kept, and every message a Ready hands to the transport or
+   attaches to the storage write (votes, acknowledgements, appends, heartbeats, snapshots)
+   satisfies tok T *)
+Theorem C07_node_emits_no_lower_term : forall T n i d n' out rn,
+  n_rn n = Some rn -> inv_rn rn -> tinv T rn -> same_incarnation i = true -> wf_input i ->
+  node_step n i d = Ok (n', out) ->
+  exists rn', n_rn n' = Some rn' /\ inv_rn rn' /\ tinv T rn' /\
+    (forall rd, out = OReady rd ->
+       Forall (tok T) (rd_msgs rd) /\
+       (forall sa, rd_append rd = Some sa -> Forall (tok T) (sa_responses sa))).
+Proof. exact node_step_term. Qed.
+Print Assumptions C07_node_emits_no_lower_term.
+
+Theorem C07_history_no_lower_term : forall T ins n n' rn,
+  n_rn n = Some rn -> inv_rn rn -> tinv T rn ->
+  Forall (fun id => same_incarnation (fst id) = true /\ wf_input (fst id)) ins ->
+  node_run n ins = Ok n' ->
+  exists rn', n_rn n' = Some rn' /\ inv_rn rn' /\ tinv T rn'.
+Proof. exact node_run_term. Qed.
+Print Assumptions C07_history_no_lower_term.
+
+(* a new incarnation satisfies that invariant for its own term, which by C07_restart is the term
+   of the last persisted hard state: nothing it ever emits carries a lower term *)
+Theorem C07_restart_term_invariant : forall st c d rn,
+  new_rawnode st c d = Ok rn -> tinv (r_term (rn_raft rn)) rn.
+Proof. exact new_rawnode_tinv. Qed.
+Print Assumptions C07_restart_term_invariant.
